@@ -97,6 +97,9 @@ class Run:
             if a is not None and b is not None:
                 return {"==": a == b, "!=": a != b, "<": a < b, ">": a > b,
                         "<=": a <= b, ">=": a >= b}[n["op"]]
+        sub = inline_call(self.fn, n)
+        if sub is not None:
+            return self.truth(sub)
         raise Undecidable("condition not understood at line %s: %s"
                           % (n.get("l"), describe(n)))
 
@@ -222,6 +225,38 @@ def local_canon(root):
         if x["k"] == "VarDecl" and x.get("did") not in out:
             out[x["did"]] = "v%d" % (len(out) + 1)
     return out
+
+
+def _subst(e, mapping):
+    """deep copy of e with DeclRefExprs of the mapped declarations replaced by the mapped nodes"""
+    if e is None:
+        return None
+    if e["k"] == "DeclRefExpr" and e["ref"]["id"] in mapping:
+        return mapping[e["ref"]["id"]]
+    out = dict(e)
+    if "ch" in e:
+        out["ch"] = [_subst(c, mapping) for c in e["ch"]]
+    return out
+
+
+def inline_call(fn, n, depth=0):
+    """if n is a call to a small helper of the same program whose body is a single `return expr;`, the expression with
+    the parameters replaced by the arguments (so that a predicate moved into a helper reads like the inline form)"""
+    from .ir import strip_casts as _sc, kids as _kids, walk as _walk
+    n = _sc(n)
+    if fn is None or n is None or "callee" not in n or depth > 3:
+        return None
+    callee = fn.tu.by_did.get(n["callee"].get("did"))
+    if callee is None or callee.body is None or callee.did == fn.did:
+        return None
+    stmts = [s for s in _kids(callee.body) if s is not None]
+    if len(stmts) != 1 or stmts[0]["k"] != "ReturnStmt" or not _kids(stmts[0]):
+        return None
+    args = _kids(n)[1:] if n.get("member_call") else _kids(n)
+    if len(args) < len(callee.params):
+        return None
+    mapping = {p["did"]: a for p, a in zip(callee.params, args)}
+    return _subst(_kids(stmts[0])[0], mapping)
 
 
 def describe(n, depth=0):
